@@ -73,7 +73,7 @@ def cur_hash():
 
 
 def _evict(keep_hash):
-    """Keep build dirs of at most 3 tree hashes (most recently used)."""
+    """Keep build dirs of at most 12 tree hashes (most recently used; several scratch trees may be in use at once)."""
     try:
         ents = [d for d in os.listdir(BUILD_ROOT) if re.match(r"^[0-9a-f]{16}-", d)]
     except FileNotFoundError:
@@ -81,10 +81,10 @@ def _evict(keep_hash):
     byhash = {}
     for d in ents:
         byhash.setdefault(d[:16], []).append(d)
-    if len(byhash) <= 3:
+    if len(byhash) <= 12:
         return
     order = sorted(byhash, key=lambda h: max(os.path.getmtime(os.path.join(BUILD_ROOT, d)) for d in byhash[h]))
-    for h in order[:-3]:
+    for h in order[:-12]:
         if h == keep_hash:
             continue
         for d in byhash[h]:
@@ -186,8 +186,21 @@ SAN_ENV = {
 }
 
 
+# VERIF_SCRATCH=<tag>: a run against a scratch tree (seeded-change tooling) keeps its shard logs, evidence and replay files apart,
+# so that several such runs can go on at once without touching evidence/ or replay/ of the registered checks
+SCRATCH = os.environ.get("VERIF_SCRATCH")
+
+
+def _run_path(pid):
+    return os.path.join(BUILD_ROOT, "run", pid + ("-" + SCRATCH if SCRATCH else ""))
+
+
+def _out_dir(kind):
+    return os.path.join(BUILD_ROOT, "scratch", SCRATCH, kind) if SCRATCH else os.path.join(VERIF, kind)
+
+
 def run_dir(pid):
-    d = os.path.join(BUILD_ROOT, "run", pid)
+    d = _run_path(pid)
     shutil.rmtree(d, ignore_errors=True)
     os.makedirs(d, exist_ok=True)
     return d
@@ -403,7 +416,7 @@ class Report:
                                 (self.pid, open_keys[key].get("what", v["what"]), key, v["count"]))
             else:
                 new.append((key, v))
-        rdir = os.path.join(VERIF, "replay", self.pid)
+        rdir = os.path.join(_out_dir("replay"), self.pid)
         shutil.rmtree(rdir, ignore_errors=True)     # witnesses of earlier runs are stale
         replay_paths = []
         if new:
@@ -426,8 +439,8 @@ class Report:
         ev = dict(property_id=self.pid, tier=self.tier, seed=int(self.seed), level=self.level,
                   coverage=cov, assumptions=self.assumptions, wall_s=round(wall, 2),
                   violations=len(new), tree_hash=cur_hash())
-        os.makedirs(os.path.join(VERIF, "evidence"), exist_ok=True)
-        json.dump(ev, open(os.path.join(VERIF, "evidence", self.pid + ".json"), "w"), indent=1, default=str)
+        os.makedirs(_out_dir("evidence"), exist_ok=True)
+        json.dump(ev, open(os.path.join(_out_dir("evidence"), self.pid + ".json"), "w"), indent=1, default=str)
         for l in kf_lines:
             print(l)
         print("%s tier=%s seed=%s evaluations=%d distinct=%d wall=%.1fs counters=%s" % (
@@ -435,7 +448,7 @@ class Report:
             json.dumps(self.counters, sort_keys=True)[:1500]))
         # shard logs can be gigabytes in the thorough tier: keep them only when something has to be looked at
         if not new and not self.inconclusive and not os.environ.get("VERIF_KEEP_RUN"):
-            shutil.rmtree(os.path.join(BUILD_ROOT, "run", self.pid), ignore_errors=True)
+            shutil.rmtree(_run_path(self.pid), ignore_errors=True)
         if new:
             for key, v, p in replay_paths:
                 print("VIOLATION property=%s replay=%s  # %s: %s (x%d)" % (self.pid, p, key, v["what"], v["count"]))
